@@ -1355,6 +1355,28 @@ impl<'a, const C: usize, const R: usize, T: 'a + Copy + std::fmt::Debug> Layout<
         let custom = self.process_extra_waitings(custom);
         self.process_sequence_custom(custom)
     }
+    /// Starts a sequence. `active_sequences` holds a fixed number of sequences and drops the
+    /// oldest one when a new one is pushed while it is full. The dropped sequence can no longer
+    /// release the keys it has pressed, so release, now, every key it would still have released.
+    fn start_sequence(&mut self, events: &'a [SequenceEvent<'a, T>]) {
+        let evicted = self.active_sequences.push_back(SequenceState {
+            cur_event: None,
+            delay: 0,
+            tapped: None,
+            remaining_events: events,
+        });
+        if let Some(seq) = evicted {
+            if let Some(keycode) = seq.tapped {
+                self.states.retain(|s| s.seq_release(keycode).is_some());
+            }
+            for ev in seq.remaining_events.iter() {
+                if let SequenceEvent::Release(keycode) = ev {
+                    self.states.retain(|s| s.seq_release(*keycode).is_some());
+                }
+            }
+        }
+    }
+
     /// Takes care of draining and populating the `active_sequences` ArrayDeque,
     /// giving us sequences (aka macros) of nearly limitless length!
     fn process_sequences(&mut self) {
@@ -1888,12 +1910,7 @@ impl<'a, const C: usize, const R: usize, T: 'a + Copy + std::fmt::Debug> Layout<
                 return custom;
             }
             Sequence { events } => {
-                self.active_sequences.push_back(SequenceState {
-                    cur_event: None,
-                    delay: 0,
-                    tapped: None,
-                    remaining_events: events,
-                });
+                self.start_sequence(events);
                 if !is_oneshot {
                     self.oneshot
                         .handle_press(OneShotHandlePressKey::Other(coord));
@@ -1901,12 +1918,7 @@ impl<'a, const C: usize, const R: usize, T: 'a + Copy + std::fmt::Debug> Layout<
                 self.rpt_action = Some(action);
             }
             RepeatableSequence { events } => {
-                self.active_sequences.push_back(SequenceState {
-                    cur_event: None,
-                    delay: 0,
-                    tapped: None,
-                    remaining_events: events,
-                });
+                self.start_sequence(events);
                 let _ = self.states.push(RepeatingSequence {
                     sequence: events,
                     coord,
